@@ -46,6 +46,9 @@ CHECKS = {
  "C08": dict(level="exploration", technique="reference-model monitor (10-line POSIX $PATH search, cross-checked with shutil.which) over every lookup view after each step of generated file-system / $PATH histories",
    text="Layouts with symlinked, missing, duplicate, relative and empty $PATH entries, non-executable shadows, directories, FIFOs and broken links named like commands; after each of create/delete/rename/chmod/replace-by-dir/$PATH edit/cd operations all names are looked up through locate_executable, CommandsCache.locate_binary, `in`, all_commands, explicit-path forms and (sampled) by spawning the bare name and reading which script ran; ~200 000 comparisons per quick run.",
    note="Capabilities are dropped so execute bits apply; directory mtimes are advanced explicitly; queries on which the POSIX model and shutil.which disagree are inconclusive; staleness is attributed (never decided) by comparing the cache's per-directory listings with the file system.", ref="§2 C08"),
+ "C12": dict(level="exploration", technique="history checker over unique-id entries (subsequence / no-loss / no-duplicate / order oracle) on every read path and on the decoded store; node-by-node LazyJSON-vs-json.loads monitor; sys.monitoring delay injection into flusher and reader code",
+   text="Random append/flush/flush(at_exit)/clear/read sequences on the real JsonHistory and SqliteHistory with buffer sizes 1-10, $HISTCONTROL subsets and hostile texts (multi-line, any Unicode, control characters, JSON look-alikes); every entry has a unique timestamp so loss, duplication, reordering, invention and alteration are read off the data; reads are overlapped with pending flusher threads (counter floor), and after the flushers finish the file is decoded both through the embedded index and by plain json.loads and compared node by node.",
+   note="Entries a $HISTCONTROL rule may drop are optional, entries no rule can drop are mandatory; SQLite text compared after rstrip; file content judged after all flushers finished.", ref="§2 C12, A.6"),
 }
 NOT_BUILT = "check not built yet in this session (planned, see DESIGN.md §2); nothing is claimed for it"
 def main():
